@@ -1,7 +1,7 @@
 #!/bin/bash
 # Applies a seeded change to /repo, runs the given checks (quick), reverts.
 #   tools/seedrun.sh <dir with patch.diff> <Cxx> [<Cyy> ...]
-d="$1"; shift
+d="$(cd /verif && realpath "$1")"; shift
 cd /verif
 if [ -n "$(git -C /repo status --porcelain)" ]; then echo "/repo is not clean"; exit 2; fi
 git -C /repo apply --binary "$d/patch.diff" || git -C /repo apply --3way "$d/patch.diff" || { echo "cannot apply"; git -C /repo checkout -q -- .; exit 2; }
@@ -13,4 +13,4 @@ for p in "$@"; do
   echo "  $p exit=$rc $sig"
 done
 git -C /repo checkout -q -- . ; git -C /repo clean -fdq -e target
-echo "RESULT $d:$res"
+echo "RESULT seeded/$(basename $d):$res"
